@@ -356,7 +356,8 @@ func runC06(c *core.Ctx) {
 			// blinds
 			bInt := new(big.Int).SetBytes(blind)
 			for k, b := range [][]byte{ScalarBytes(r, N, 48), new(big.Int).Add(bInt, big.NewInt(1)).FillBytes(make([]byte, 48)), new(big.Int).Sub(bInt, big.NewInt(1)).FillBytes(make([]byte, 48)),
-				new(big.Int).Add(bInt, N).FillBytes(make([]byte, 49)), {}, nil, make([]byte, 48), blind[:47], append(clone(blind), 0)} {
+				new(big.Int).Add(bInt, N).FillBytes(make([]byte, 49)), {}, nil, make([]byte, 48), blind[:47], append(clone(blind), 0),
+				N.Bytes(), new(big.Int).Lsh(N, 1).Bytes(), make([]byte, 97), r.Bytes(97), r.Bytes(128), r.Bytes(1000), append(make([]byte, 60), blind...)} {
 				cs = h.mk(fmt.Sprintf("wrong-blind#%d", k))
 				cs.blind = b
 				w.call(cs)
